@@ -68,4 +68,5 @@ Definition script := list (cexp * step).
 (* call skeletons of the irregular functions (New after the query loop, Resume, Close) *)
 Inductive callname :=
   | CnSendQueries | CnApplyQuirks | CnEnterAlt | CnEnableModes | CnSetupSignals | CnOpenTty | CnSuspend
-  | CnConsoleClose | CnPostQuit | CnReportWinsize.
+  | CnConsoleClose | CnPostQuit | CnReportWinsize
+  | CnCloseIfFailed.   (* `if err != nil { vx.Close(); return nil, err }` after reportWinsize *)
